@@ -119,6 +119,12 @@ def relevant(prop, vid, variant="", faults=None, probes=None):
         # "a registration call that reports failure leaves the loop exactly as it was": whatever goes
         # wrong in a run after such a failure is C07's to report, whichever oracle notices it
         return True
+    if prop == "C06" and probes and probes.get("task_ran") and vid in (
+            "C04.oversleep", "C04.starved", "C05.independence", "C02.sleep_on_ready", "C02.starved", "C08.lost", "C09.lost",
+            "C07.block_with_due"):
+        # "tasks that keep re-registering ... do not prevent descriptors, timers and events from being
+        # serviced": in the task plans, something that is not serviced is C06's to report
+        return True
     if prop == "C15" and ((variant and variant != "base") or faults):
         # every guarantee of the other properties must survive every enumerated fault variant, and
         # every base plan in which a fault of the plan itself (absent facility, EINTR) fired
